@@ -181,6 +181,44 @@ def gen_eq(rng, tier, kinds):
         yield dict(t="eqreq", name=name, args=args, args2=args2, diff=diff, opsa=rng.choice(["", "m"]), opsb=rng.choice(["", "m"]))
 
 
+def gen_eqcfg(rng, tier, nets, vers):
+    """pairs of device-available / program-version frames built from STRUCTURED data (NetworkInfo, VersionInfo)
+    that are identical or differ in exactly one field of the configuration"""
+    quick = tier == "quick"
+    net_fields = ["eth", "est", "wlan", "wst", "ssid", "enc", "sig", "srv"]
+    ver_fields = ["a", "b", "c", "tag", "sv", "dev", "sig"]
+    for i in range(240 if quick else 8000):
+        if i % 3:
+            a = dict(rng.choice(nets))
+            a["ssid"] = a["ssid"][:30]
+            b = dict(a)
+            f = "none" if i % 5 == 0 else net_fields[i % len(net_fields)]
+            if f in ("eth", "wlan"):
+                v = list(b[f]); k = rng.randrange(12); v[k] = (v[k] + 1 + rng.randrange(254)) % 256; b[f] = v
+            elif f in ("est", "wst", "srv"):
+                b[f] = not b[f]
+            elif f == "ssid":
+                b[f] = b[f] + "x"
+            elif f == "enc":
+                b[f] = (b[f] + 1 + rng.randrange(4)) % 5
+            elif f == "sig":
+                b[f] = (b[f] + 1 + rng.randrange(254)) % 256
+            yield dict(t="eqcfg", kind="net", a=a, b=b, diff=f, fill=rng.choice(["none", "both"]))
+        else:
+            a = dict(rng.choice(vers))
+            if (len(a["tag"]), len(a["dev"]), len(a["sig"])) != (4, 4, 6) or max(a["a"], a["b"], a["c"]) > 65535 or a["sv"] > 255:
+                continue
+            b = dict(a)
+            f = "none" if i % 5 == 0 else ver_fields[i % len(ver_fields)]
+            if f in ("a", "b", "c"):
+                b[f] = (b[f] + 1 + rng.randrange(65000)) % 65536
+            elif f == "sv":
+                b[f] = (b[f] + 1 + rng.randrange(254)) % 256
+            elif f in ("tag", "dev", "sig"):
+                raw = bytearray(bytes.fromhex(b[f])); k = rng.randrange(len(raw)); raw[k] ^= 1 + rng.randrange(255); b[f] = bytes(raw).hex()
+            yield dict(t="eqcfg", kind="ver", a=a, b=b, diff=f, fill=rng.choice(["none", "both"]))
+
+
 # ------------------------------------------------------------------ implementation side
 
 def build_frame(fa):
@@ -311,6 +349,14 @@ def evaluate(cases, res):
                 except Exception as e:  # noqa: BLE001
                     o["fill_err"] = type(e).__name__
             impl[ci] = o
+        elif t == "eqcfg":
+            try:
+                a, b = c02.BUILD[case["kind"]](dict(case["a"], t=case["kind"])), c02.BUILD[case["kind"]](dict(case["b"], t=case["kind"]))
+                if case["fill"] == "both":
+                    a.bytes, b.bytes  # noqa: B018
+                impl[ci] = dict(eq=(a == b, a != b, b == a, a == a and not (a != a)))
+            except Exception as e:  # noqa: BLE001
+                impl[ci] = dict(eq_err=type(e).__name__)
         elif t == "eqreq":
             code = c02.REQS[case["name"]][0]
             cls = fi.frame_class(code)
@@ -437,6 +483,15 @@ def evaluate(cases, res):
             res.count(f"outcome:{t}:" + ("none" if impl[ci] == "none" else "decoded"))
             if impl[ci] != exp:
                 res.fail("corr", pub, exp, impl[ci], "decoder model and decode_message differ on an arbitrary message")
+        elif t == "eqcfg":
+            o = impl[ci]
+            same = case["diff"] == "none"
+            res.count(f"eqcfg:{case['kind']}:{case['diff']}:{case['fill']}")
+            if "eq_err" in o:
+                res.fail("spec", pub, "== / != give an answer", dict(raised=o["eq_err"]), "building or comparing two frames raised an exception")
+            elif tuple(o["eq"]) != (same, not same, same, True):
+                res.fail("spec", pub, dict(eq=same, ne=not same, self_eq=True), dict(eq=o["eq"][0], ne=o["eq"][1], sym=o["eq"][2], self_eq=o["eq"][3]),
+                         "frames built from the same configuration must be equal, frames whose configuration differs in %s must not" % case["diff"])
         elif t in ("eq", "eqreq"):
             compare_eq(pub, case, impl[ci], eqans, ci, res)
 
@@ -652,6 +707,7 @@ def run(ctx):
             pass
     cases.extend(gen_dec(rng, tier, net_msgs, ver_msgs))
     cases.extend(gen_eq(rng, tier, kinds))
+    cases.extend(gen_eqcfg(rng, tier, [c for c in nets if c02.admissible(c)], [c for c in vers if c02.admissible(c)]))
     if ctx.get("max_cases"):
         cases = cases[:ctx["max_cases"]]
     evaluate(cases, res)
